@@ -18,7 +18,8 @@ TECHNIQUE = "Coq model + theorems (incl. refutation witness) of feature registra
 IMPORTS = "From U2F Require Import Base.Prelude Fea.Reach."
 RULE = ("fonts with Latin/Cyrillic/Greek/Arabic/Hebrew/Devanagari glyphs, kerning between glyphs of each script, top/_top anchors "
         "on every base and mark, optional entry/exit anchors; languagesystem statements: none, DFLT only, DFLT+one script, all "
-        "scripts, with extra languages. Non-trivial = font has kerning and marks and at least two script tags.")
+        "scripts, with extra languages. Non-trivial = font has kerning and marks and at least two script tags."
+        " Every language system of a script must expose the same generated features as the script's default one (dev2/deva and latn declared with differing language lists); shared-script digits and non-exported glyphs of other scripts must not register new scripts.")
 ASSUMPTIONS = []
 F6_SIG = "kern-script-not-declared-by-languagesystem"
 
